@@ -2,6 +2,7 @@
 import re
 from vflib import census, thir as T
 from vflib.terms import Evaluator, Tm, subterms
+from rules import shared
 
 META = {
     "level": "other",
@@ -197,7 +198,7 @@ def r4(ctx, prog, evalr, rep):
                            "dead arm: only reachable when a comparable evaluates to a node list (Data::Refs), which "
                            "C04-R5 (re-checked in this run) shows cannot be constructed")
                     continue
-                rep.bad("C15-R4", "%s|PartialEq<%s>" % (prog.owner_fn(p), kind), T.loc(x),
+                rep.bad("C15-R4", "%s|PartialEq<%s>" % (shared.rk(prog, Evaluator(prog), prog.owner_fn(p)), kind), T.loc(x),
                         "`==` on `%s` delegates to the data type's own PartialEq: the result does not depend only on the "
                         "Queryable view" % g[0])
     rep.ok("C15-R4", "partial-eq-census", "-", "%d sites found in %d evaluator bodies" % (n, len(evalr)))
